@@ -213,3 +213,59 @@ pub fn h_remove_index_read<const N: usize>() {
     kani::cover!(i < m.len, "reached");
     let _ = unsafe { m.remove_index_read(i) };
 }
+
+// ---------------------------------------------------------------- the contract Verus ASSUMES for the insertion cores
+/// `insert_post` of verus/prelude.rs, at slot level, on the real bodies of `insert_ii` (which = 0) and
+/// `insert_ii_for_full` (which = 1), from a `wf_weak` state (duplicate keys allowed, as in the Verus contract):
+/// the slot chosen is the FIRST one whose key equals `k`, else the old `len`; exactly that slot changes;
+/// what it holds and what is handed back follow `update_key`; `len` grows only on append.
+pub fn h_insert_core_post<K: Shape, V: Shape, const N: usize>(which: u8) {
+    let mut m: Map<K, V, N> = any_map_weak();
+    let pre = model(&m);
+    let k: K = kani::any();
+    let v: V = kani::any();
+    let upd: bool = kani::any();
+    let mut first = pre.len;
+    let mut j = 0;
+    while j < N {
+        if j < pre.len && first == pre.len && pre.slot(j).0 == k {
+            first = j;
+        }
+        j += 1;
+    }
+    let (i, d) = if which == 0 {
+        // otherwise the call is the container's own panic (decided by the C03 units)
+        kani::assume(pre.len < N || first < pre.len);
+        m.insert_ii(k, v, upd)
+    } else {
+        match m.insert_ii_for_full(k, v, upd) {
+            Some((i, old)) => (i, Some(old)),
+            None => {
+                assert!(first == pre.len && model(&m).same(&pre), "insert_post(for_full): None exactly when no stored key equals k, and then nothing changes");
+                kani::cover!(true, "reached");
+                return;
+            }
+        }
+    };
+    let post = model(&m);
+    assert!(i == first, "insert_post: the slot chosen is the first one whose key equals k, else the old len");
+    if first < pre.len {
+        let old = pre.slot(i);
+        assert!(post.len == pre.len, "insert_post: a present key does not change len");
+        if upd {
+            assert!(same_pair(&post.slot(i), &(k, v)) && same_opt_pair(&d, &Some(old)), "insert_post(update_key): the supplied pair is stored, the old pair handed back");
+        } else {
+            assert!(same_pair(&post.slot(i), &(old.0, v)) && same_opt_pair(&d, &Some((k, old.1))), "insert_post(keep key): the stored key object stays, the supplied key and the old value are handed back");
+        }
+    } else {
+        assert!(which == 0 && post.len == pre.len + 1 && same_pair(&post.slot(i), &(k, v)) && d.is_none(), "insert_post: an absent key is appended at the old len");
+    }
+    let mut j = 0;
+    while j < N {
+        if j < pre.len && j != i {
+            assert!(same_pair(&post.slot(j), &pre.slot(j)), "insert_post: every other slot is untouched");
+        }
+        j += 1;
+    }
+    kani::cover!(first < pre.len, "reached");
+}
